@@ -108,12 +108,13 @@ PROPS = {
         "assumptions": [],
     },
     "C11": {
-        "statement": "on the pool model (an assumption about rayon): C11_rendezvous_progress / _all_inside_together / _steps_decrease / _needs_n, C11_poolCompletes_iff (the executable prediction is exact), C11_busy_workers; on the model of the pool slots of builder.rs: C11_default_pool_size / _default_pool_rendezvous (without add_pool every dispatcher - top level, batches, nested batches - runs on a pool of rayon's default size, whatever the widths of the dispatcher that created it), C11_user_pool / _user_pool_rendezvous (a supplied pool, given before or after the batches, serves the top level and its batches), C11_nested_batch_pool_witness (a batch inside a batch runs on a default pool even under a user-supplied one)",
+        "statement": "on the pool model (an assumption about rayon): C11_rendezvous_progress / _all_inside_together / _steps_decrease / _needs_n, C11_poolCompletes_iff (the executable prediction is exact), C11_busy_workers; on the model of the pool slots of builder.rs: C11_default_pool_size / _default_pool_rendezvous (without add_pool every dispatcher - top level, batches, nested batches - runs on a pool of rayon's default size, whatever the widths of the dispatcher that created it), C11_user_pool / _user_pool_rendezvous (a supplied pool, given before or after the batches, serves the top level and its batches), C11_nested_batch_pool_witness (a batch inside a batch runs on a default pool even under a user-supplied one); on the model of async_dispatcher.rs over sequences of dispatch / wait / wait_without_tl / world / running calls: C11_async_one_job (a second dispatch is spawned only after the caller has taken the systems back), C11_async_whole_pool / _every_dispatch (no dispatch ever shares the pool with another unfinished job of the dispatcher), C11_async_sequence / _sequence_rendezvous (the prediction for every dispatch of a sequence is that of a single dispatch: a stage of n groups meets iff n <= pool size)",
         "engines": [{"engine": "rendezvous", "args": {},
-                     "quick": {"reps": 5, "cases": 150, "gen-reps": 3, "envs": "2,3,4,6,8"},
-                     "thorough": {"reps": 40, "cases": 3000, "gen-reps": 8, "envs": "2,3,4,5,6,8,12,16", "negative-pct": 2}}],
+                     "quick": {"reps": 5, "cases": 150, "gen-reps": 3, "envs": "2,3,4,6,8", "seq-cases": 40, "seq-reps": 1},
+                     "thorough": {"reps": 40, "cases": 3000, "gen-reps": 8, "envs": "2,3,4,5,6,8,12,16", "negative-pct": 2, "seq-cases": 800, "seq-reps": 2}}],
         "aspects": ["pool", "layout", "outcome"],
-        "assumptions": ["PARTIAL: the pool model (idle workers take any unstarted group; a blocked system keeps its worker) is an assumption about rayon 1.12, not derived from its source; the tie is (1) the complete enumeration of widths 2..16 x pool sizes x modes and (2) generated plans (hints, group sizes, several stages, batches, nested batches, default pool in child processes with a chosen RAYON_NUM_THREADS, user pools given early / late / to batch builders, build / build_async, three entry points, three kinds of caller) with real rendezvous runs on the stages of the implementation's own plan",
+        "assumptions": ["PARTIAL: the pool model (idle workers take any unstarted group; a blocked system keeps its worker) is an assumption about rayon 1.12, not derived from its source; the tie is (1) the complete enumeration of widths 2..16 x pool sizes x modes and (2) generated plans (hints, group sizes, several stages, batches, nested batches, default pool in child processes with a chosen RAYON_NUM_THREADS, user pools given early / late / to batch builders, build / build_async, three entry points, three kinds of caller) with real rendezvous runs on the stages of the implementation's own plan and (3) generated call sequences on an async dispatcher (two to four dispatch() calls back to back or separated by wait / wait_without_tl / running / world; a slow first stage so that whatever was queued on the pool has been picked up when the wide stage starts; pool size equal to the stage width or larger; default and user pools)",
+                        "the async dispatcher's methods are called from a thread that is not a worker of the dispatcher's pool (a caller on the pool would itself hold a worker while dispatch() / wait() block)",
                         "a waiting system is never placed behind a batch of its own group: a worker that waits for a batch's inner stage runs other pending jobs of the outer stage on top of its stack (rayon's join), so a sibling's waiter can block above the continuation that holds this group's later systems - rayon's nested blocking, not covered by the property's hypothesis (nothing else occupies the pool)"],
     },
     "C12": {
@@ -254,7 +255,7 @@ TEXT = {
     "C08": "Proof: the borrow invariant (free / n shared guards / one exclusive guard) is preserved by every operation over every legal history; outcome_spec, panic_frame, drop_exact; scope_frame: a closure under catch_unwind that takes guards of any kind (typed, by-id, tuple fields, meta-iterator items, clones) and returns, panics, or is refused a fetch after partial acquisition gives back exactly what it took (unwinding = return); entry / exec callers that panic holding the guard. Tied by random histories incl. such closures (also while outer guards on the same resources are alive) with a probe of every cell - state and exact shared count - after every operation; threads that panic while holding guards in the many-thread part. PARTIAL: the many-thread clause assumes atomicity of AtomicRefCell (stress run with shadow counters only).",
     "C09": "Proof: refinement of the world to a map ResId -> token (every operation commutes with the abstraction and answers what the map answers), type-tag invariant, mismatch panics leave the world unchanged, value accounting (each token in exactly one of world / returned / dropped) - also when the Drop of a value panics where the world drops it (insert replacing: the new value is in place first; or_insert on an occupied slot; the caller dropping a removed value; the world's own drop, which may leak but never drops twice) and when or_insert_with's closure or the caller holding the entry guard panics. Tied by random histories incl. mismatching type arguments with drop counters and a one-shot panicking Drop armed at each of those places, the accounting checked from the drop log before any stored value is looked at again.",
     "C10": "Proof: every stage the code's insertion_target skips is justified by a conflicting earlier system or a dependency at/behind it (on the five tables of the code, for every registration sequence, after repair D3); compatible dependency-free systems share one stage; max_threads is the widest stage. Tied by exact layout comparison and max_threads().",
-    "C11": "Proof about a pool MODEL (assumption about rayon): with >= n idle workers n rendezvous systems always meet and never deadlock; with fewer they do deadlock (the executable prediction is exact); plus a model of builder.rs's pool slots: which pool every dispatcher (top level, batch, nested batch) runs on - the default pool has rayon's default size whatever dispatcher created it, a supplied pool serves the top level and its batches. PARTIAL by nature: the tie is the complete enumeration of widths 2-16 x pool sizes x {user pool, default pool, batch-inner, async, foreign caller} and generated plans x configurations (hints, group sizes, multi-stage, nested batches, default pool sized by the harness in child processes, pools given early / late / to batch builders, build / build_async) with real rendezvous runs on the stages of the implementation's own plan, which must equal the model's plan.",
+    "C11": "Proof about a pool MODEL (assumption about rayon): with >= n idle workers n rendezvous systems always meet and never deadlock; with fewer they do deadlock (the executable prediction is exact); plus a model of builder.rs's pool slots: which pool every dispatcher (top level, batch, nested batch) runs on - the default pool has rayon's default size whatever dispatcher created it, a supplied pool serves the top level and its batches. PARTIAL by nature: the tie is the complete enumeration of widths 2-16 x pool sizes x {user pool, default pool, batch-inner, async, foreign caller} and generated plans x configurations (hints, group sizes, multi-stage, nested batches, default pool sized by the harness in child processes, pools given early / late / to batch builders, build / build_async) with real rendezvous runs on the stages of the implementation's own plan, which must equal the model's plan; plus a model of the async dispatcher over call sequences (the caller, never a pool thread, waits for the previous dispatch; every dispatch has the whole pool), tied by generated sequences of dispatch / wait / wait_without_tl / running / world with the wide stage behind a slow first stage.",
     "C12": "Proof: thread-local systems start after all staged systems, run in registration order, are assigned the caller's thread by the thread table the driver compares every event with; sendable iff no thread-local systems; KF1 is proved as a witness (C12_kf1_witness). Tied by traces with thread kinds, try_into_sendable, compile probes (Dispatcher !Send), the async dispatcher's wait. PARTIAL: open finding KF1.",
     "C13": "Proof: setup / dispose reach exactly the systems of the layout, batches expanded, at any depth (dispose = setup after repair D2); setup never changes an existing resource, creates exactly the default-provided ones, is idempotent. Tied by hook counters, world diffs on pre-populated worlds, and the setup oracle over every system-data type.",
     "C14": "Proof about every log the driver's panic-aware acceptor accepts: a panic is reported iff a system was unwound, nothing ordered after an unwound system starts, nothing starts twice, every opened window is closed; the acceptor accepts every declaratively legal execution. Tied by injecting a panic into every placed system in turn (run / fetch), payload, borrow probe, clean re-dispatch. PARTIAL: rayon's re-raise and unwinding are assumed; rayon may leave out unstarted siblings (modelled).",
